@@ -22,4 +22,11 @@ LEAVES = [
     # ---- ServiceInfo._dns_addresses: `_TYPE_AAAA if ip_addr.version == 6 else _TYPE_A`
     ("Responder", "addr_type_of_version", "_services/info.py", "ServiceInfo._dns_addresses", ("arg", "DNSAddress", 1, 0),
      [P("ip_addr.version", "version")], "num", NAT),
+    # ---- async_response, the D25 repair (`optional`: the test is absent from a tree without the repair and then never fires):
+    # `if msg.scope_id is not None:` builds a second DNSRRSet of the known answers without the receiving socket's scope id ...
+    ("Responder", "own_known_unscoped", QH, "QueryHandler.async_response", ("if", "msg.scope_id", 0),
+     [P("msg.scope_id is not None", "has_scope", "bool")], "bool", {"nat": True, "optional": True}),
+    # ... and `_answer_question` is handed that one (a boolean constant: is `own_known_answers` an argument of the call?)
+    ("Responder", "own_known_passed", QH, "QueryHandler.async_response", ("call_has_arg", "_answer_question", "own_known_answers", 0),
+     [], "bool", NAT),
 ]
